@@ -752,38 +752,55 @@ theorem cli_validate_accepts_what_dispatch_refuses_counterexample {ε ρ : Type}
   ⟨rfl, rfl⟩
 
 /-- **(a) `command_line_runner` never panics and returns**, for every argument combination (`chunksize` any `i64`,
-both flags), every configuration file (unreadable, unbuildable, good), every query file that is missing or can be
-read to its end — blank lines, lines that are not JSON, a document that is no batch —, every per-run
-configuration: an `Ok` or an `Err` of the call.  `_partial`: as `call_never_panics_partial` (total `respond`, the
-plugins of the model), and the query file is not `unreadable` — for a file that opens but cannot be read the full
-statement is FALSE, see the `_counterexample` below. -/
+both flags), every configuration file (unreadable, unbuildable, good), EVERY query file — missing, a directory
+(opens, cannot be read), readable with blank lines, lines that are not JSON, a document that is no batch —, every
+per-run configuration: an `Ok` or an `Err` of the call.  `_partial` as `call_never_panics_partial`: total
+`respond`, the plugins of the model.  (Before fix fffeda5 the statement needed "the query file is not
+`unreadable`": see `cli_unreadable_query_file_refused`.) -/
 theorem cli_never_panics_partial {α : Type} (W : WOps α) (env : String → Bool × Bool) (app : App)
     (runCfg : Option Json) (respond : Json → Json) (a : Cli.CliArgs)
-    (hi : ∀ c, a.chunksize = some c → c < 2 ^ 63) (cfg : Cli.ConfigFile) (file : Cli.QueryFile)
-    (hf : file ≠ .unreadable) :
+    (hi : ∀ c, a.chunksize = some c → c < 2 ^ 63) (cfg : Cli.ConfigFile) (file : Cli.QueryFile) :
     ∃ o, Cli.commandLineRunnerO (callO W env app runCfg respond) a cfg file = .ok o :=
   Cli.commandLineRunnerO_returns _
-    (fun b => (call_never_panics_partial W env app runCfg respond .null).2.1 b) a hi cfg file hf
+    (fun b => (call_never_panics_partial W env app runCfg respond .null).2.1 b) a hi cfg file
 
-/-- **a query "file" that opens but cannot be read (a directory) makes `run_newline_json` run without bound** — a
-`_counterexample` to "the call returns": `BufRead::lines` yields the read error (`EISDIR`) on every call, each
-item is collected as an unparsable row, and as soon as the run of the empty batch succeeds (it does:
-`empty_batch`) the loop over the chunks never ends; with a chunk size the machine cannot collect the first chunk
-is never complete.  (`run_json` on the same file returns the read error.) -/
-theorem cli_unreadable_query_file_counterexample {ε ρ : Type} (run : List Json → Outcome (Except ε ρ)) (res : ρ)
-    (h : run [] = .ok (.ok res)) (c : Int) (h1 : 1 ≤ c) (h2 : c < 2 ^ 63) :
-    Cli.commandLineRunnerO run { chunksize := some c, newlineDelimited := true } .good .unreadable = .diverges ∧
-    Cli.commandLineRunnerO run { chunksize := none, newlineDelimited := false } .good .unreadable
-      = .ok { log := [], result := .error .notJson } := by
-  have hv : Cli.validate (ε := ε) { chunksize := some c, newlineDelimited := true } = .ok () := by
-    have : ¬ c < 1 := by omega
-    simp [Cli.validate, this]
-  have hpos : c > 0 := by omega
-  have hcast := Cli.asUsize_of_pos c h1 h2
+/-- **`command_line_runner` does not run without bound unless a run does**: for EVERY batch runner that never
+diverges (it may fail, it may panic), every argument combination (any integer as chunk size), every
+configuration file and every query file of the model — the directory included — the call does not diverge: the
+loop over the chunks makes one run per chunk of a finite file and stops at the first failing one. -/
+theorem cli_never_diverges {ε ρ : Type} (run : List Json → Outcome (Except ε ρ))
+    (hrun : ∀ b, run b ≠ .diverges) (a : Cli.CliArgs) (cfg : Cli.ConfigFile) (file : Cli.QueryFile) :
+    Cli.commandLineRunnerO run a cfg file ≠ .diverges :=
+  Cli.commandLineRunnerO_ne_diverges run hrun a cfg file
+
+/-- **a query "file" that opens but cannot be read (a directory) is refused like a missing file** (fix fffeda5:
+`query_file.metadata().is_dir()` right after `File::open`), for every validated argument combination and every
+batch runner: `BuildFailure("Could not find query file …")`, nothing is run. -/
+theorem cli_unreadable_query_file_refused {ε ρ : Type} (run : List Json → Outcome (Except ε ρ)) (a : Cli.CliArgs)
+    (hv : Cli.validate (ε := ε) a = .ok ()) :
+    Cli.commandLineRunnerO run a .good .unreadable = .ok { log := [], result := .error .queryFileMissing } := by
+  simp only [Cli.commandLineRunnerO, hv, Cli.afterValidateO]
+
+/-- what the refusal is there for: ON such a file `run_newline_json` itself runs without bound —
+`BufRead::lines` yields the read error (`EISDIR`) on every call, each item is collected as an unparsable row, and
+as soon as the run of the empty batch succeeds (it does: `empty_batch`) the loop over the chunks never ends; with
+a chunk size the machine cannot collect the first chunk is never complete.  This was the outcome of
+`--query-file <a directory> --chunksize 2 --newline-delimited` before the fix.  (`run_json` on the same file
+returns the read error.) -/
+theorem cli_run_newline_json_on_unreadable_file_diverges {ε ρ : Type} (run : List Json → Outcome (Except ε ρ))
+    (res : ρ) (h : run [] = .ok (.ok res)) (n : Nat) (hn : n ≠ 0) :
+    Cli.runNewlineJsonO run (some n) .unreadable = .diverges ∧
+    Cli.runJsonO run .unreadable = .ok { log := [], result := .error .notJson } := by
   refine ⟨?_, rfl⟩
-  simp only [Cli.commandLineRunnerO, hv, Cli.afterValidateO, Cli.dispatchO, Cli.getChunksizeOption, hpos, if_true,
-    Cli.runNewlineJsonO, Option.getD_some, hcast.2, if_false, h]
+  simp only [Cli.runNewlineJsonO, Option.getD_some, hn, if_false, h]
 
+-- `cli_never_diverges` for the model of the application: whatever the arguments (any integer as chunk size)
+example {α : Type} (W : WOps α) (env : String → Bool × Bool) (app : App) (runCfg : Option Json)
+    (respond : Json → Json) (a : Cli.CliArgs) (cfg : Cli.ConfigFile) (file : Cli.QueryFile) :
+    Cli.commandLineRunnerO (callO W env app runCfg respond) a cfg file ≠ .diverges :=
+  cli_never_diverges _ (fun b h => by
+    obtain ⟨r, hr⟩ := (call_never_panics_partial W env app runCfg respond .null).2.1 b
+    rw [hr] at h; cases h) a cfg file
 -- non-vacuity of the hypothesis: the run of the empty batch succeeds in the model of the application
 example : callO C06.natOps (fun _ => (true, true))
     { plugins := [], parallelism := 2, persist := true, policy := .none } none id [] = .ok (.ok []) := by rfl
